@@ -284,8 +284,8 @@ func addShape(t *rapid.T, g *G, o Opts) {
 	var entry Term
 	var rules []Rule
 	P := func(ts ...Term) Prod { return Prod{Terms: ts} }
-	shape := ri(t, 0, 14, "shape")
-	if shape >= 12 && o.Prec {
+	shape := ri(t, 0, 16, "shape")
+	if shape >= 12 && shape <= 14 && o.Prec {
 		shape = 8
 	}
 	switch shape {
@@ -468,6 +468,54 @@ func addShape(t *rapid.T, g *G, o Opts) {
 			pr[0] = P(tokTerm(g, a), ruleTerm(hn("n")), ruleTerm(hn("n")), tokTerm(g, b))
 		}
 		rules = []Rule{{Name: hn("n"), Prods: pr}}
+	case 15, 16: // one LR(0) item "m = t . o" (o nullable, FIRST(o) not empty) closed in several
+		// contexts with different lookaheads, and a rival "u" with t's body in one of them: the
+		// lookahead of "t = Z ." must be FIRST(o) plus the follower of THAT context only (an
+		// over-approximation that leaks lookaheads between contexts invents a conflict with
+		// "u = Z ." or a spurious reduce). Guards are drawn at random, so either context may be
+		// the one whose closure is computed first.
+		for len(g.Toks) < 8 {
+			g.Toks = append(g.Toks, fmt.Sprintf("T%c", 'A'+rune(len(g.Toks))))
+		}
+		perm := rapid.Permutation([]int{0, 1, 2, 3, 4, 5, 6, 7}).Draw(t, "ctxperm")
+		tq := func(i int) Term { return tokTerm(g, perm[i]) }
+		nctx := ri(t, 2, 3, "nctx")
+		z, w := tq(6), tq(7)
+		var sp []Prod
+		for c := 0; c < nctx; c++ {
+			sp = append(sp, P(tq(c), ruleTerm(hn("m")), tq(3+c)))
+		}
+		rc := ri(t, 0, nctx-1, "rivalctx")
+		rf := (rc + 1 + ri(t, 0, nctx-2, "rivalfol")) % nctx // follower of another context
+		sp = append(sp, P(tq(rc), ruleTerm(hn("u")), tq(3+rf)))
+		if rapid.Bool().Draw(t, "rivalFirst") {
+			sp[0], sp[len(sp)-1] = sp[len(sp)-1], sp[0]
+		}
+		body := []Term{z}
+		if ri(t, 0, 3, "zz") == 0 {
+			body = []Term{z, z}
+		}
+		mp := P(ruleTerm(hn("t")), ruleTerm(hn("o")))
+		op := []Prod{P(w), P()}
+		switch ri(t, 0, 3, "ovar") {
+		case 0:
+			op = []Prod{P(w, ruleTerm(hn("o"))), P()}
+		case 1:
+			mp = P(ruleTerm(hn("t")), ruleTerm(hn("o")), ruleTerm(hn("o")))
+		}
+		entry = ruleTerm(hn("s"))
+		rules = []Rule{
+			{Name: hn("s"), Prods: sp},
+			{Name: hn("m"), Prods: []Prod{mp}},
+			{Name: hn("t"), Prods: []Prod{P(body...)}},
+			{Name: hn("o"), Prods: op},
+			{Name: hn("u"), Prods: []Prod{P(body...)}},
+		}
+		if rapid.Bool().Draw(t, "revdecl") {
+			for i, j := 1, len(rules)-1; i < j; i, j = i+1, j-1 {
+				rules[i], rules[j] = rules[j], rules[i]
+			}
+		}
 	default: // two nullable siblings followed by a token (FIRST through several nullables)
 		entry = ruleTerm(hn("s"))
 		rules = []Rule{
